@@ -275,7 +275,7 @@ static std::string constInit(const Constant *C) {
 }
 
 
-struct Step { bool isField; unsigned k; std::string idx; uint64_t stride = 0; };
+struct Step { bool isField; unsigned k; std::string idx; uint64_t stride = 0; uint64_t len = 0; };
 struct Path { bool ok = false; bool isNull = false; std::string root; Type *rootTy = nullptr; std::vector<Step> steps; Type *ty = nullptr; };
 static std::map<const Value *, std::vector<std::string>> idxPhiVars; // pointer phi -> C int vars for its Index steps
 static std::map<const Value *, Path> idxPhiPath;
@@ -322,11 +322,20 @@ static Path resolveNoCache(FnCtx &X, const Value *V, int depth) {
                 if (auto *C = dyn_cast<ConstantInt>(I)) if (C->isZero()) continue;
                 // pointer arithmetic on an array element pointer
                 if (P.steps.empty() || P.steps.back().isField) { P.ok = false; return P; }
-                P.steps.back().idx = "(" + P.steps.back().idx + ") + (" + is + ")";
+                {
+                    size_t ns = P.steps.size();
+                    if (ns >= 2 && !P.steps[ns - 2].isField && P.steps.back().len > 0) {
+                        // pointer walk over an array of arrays (contiguous rows): carry into the enclosing index so that no inner index leaves its row
+                        std::string M = std::to_string(P.steps.back().len) + "LL";
+                        std::string lin = "((int64_t)(" + P.steps[ns - 2].idx + ") * " + M + " + (int64_t)(" + P.steps.back().idx + ") + (int64_t)(" + is + "))";
+                        P.steps[ns - 2].idx = "(" + lin + " / " + M + ")";
+                        P.steps.back().idx = "(" + lin + " % " + M + ")";
+                    } else P.steps.back().idx = "(" + P.steps.back().idx + ") + (" + is + ")";
+                }
                 continue;
             }
             if (auto *ST = dyn_cast<StructType>(P.ty)) { unsigned k = cast<ConstantInt>(I)->getZExtValue(); P.steps.push_back({true, k, ""}); P.ty = ST->getElementType(k); }
-            else if (auto *AT = dyn_cast<ArrayType>(P.ty)) { Step st{false, 0, is}; st.stride = DL->getTypeAllocSize(AT->getElementType()); P.steps.push_back(st); P.ty = AT->getElementType(); }
+            else if (auto *AT = dyn_cast<ArrayType>(P.ty)) { Step st{false, 0, is}; st.stride = DL->getTypeAllocSize(AT->getElementType()); st.len = AT->getNumElements(); P.steps.push_back(st); P.ty = AT->getElementType(); }
             else { P.ok = false; return P; }
         }
         return P;
